@@ -595,7 +595,20 @@ def rule_r6(prog, res) -> None:
             else:
                 res.violation("C02.R6", f, f.node, "writer schema is not reader.copy_chunk_info(drop_patch_ids=True)", key_extra="chunk-info-source")
         # reader is entered as a context manager
-        if any(isinstance(x, ast.withitem) and unparse(x.context_expr) == "reader" for x in ast.walk(f.node)):
+        from ..inline import inlined
+
+        rparam = next((q for q in f.param_names() if q == "reader" or "reader" in q), None)
+        g = inlined(prog, f, keep={"chunk_processing_task", "writer_task", "scatter_data_chunk", "split_into_patches", "get_patch_centers", "load_patches"})
+
+        def is_reader(e, depth=4) -> bool:
+            if isinstance(e, ast.Name):
+                if e.id == rparam:
+                    return True
+                vals = [v for v in all_def_values(g.node, e.id) if v is not None]
+                return depth > 0 and len(vals) == 1 and is_reader(vals[0], depth - 1)
+            return False
+
+        if rparam is not None and any(isinstance(x, ast.withitem) and is_reader(x.context_expr) for x in ast.walk(g.node)):
             res.ok("C02.R6", res.site(f, "with reader"), "reader used as context manager")
         else:
             res.violation("C02.R6", f, f.node, "the reader is not entered as a context manager in this variant (file left open / not opened)", key_extra="reader-not-with")
